@@ -681,7 +681,7 @@ func (n eqNode) mutants() []eqNode {
 			// ... and that pointers are flattened at any depth (a *int 7 is the leaf value 7); which hollow
 			// (zero-valued) handle sits where is not a difference the statement speaks about; structs are
 			// documented to be compared by exported fields, their order and values (not by type name)
-			norm := strings.NewReplacer("deep-struct-by-value", "deep-struct", "ptr3depth4", "ptr3", "ptr3depth6", "ptr3", "array", "slice", "&", "", "pstruct", "struct", "alias:", "stack:", "*[3]byte", "bytes", "[3]byte", "bytes", "[]byte", "bytes", "zero-StackAlias", "zero", "zero-Stack", "zero", "zero-Condition", "zero")
+			norm := strings.NewReplacer("deep-struct-by-value", "deep-struct", "*complex64", "complex64", "ptr3depth4", "ptr3", "ptr3depth6", "ptr3", "array", "slice", "&", "", "pstruct", "struct", "alias:", "stack:", "*[3]byte", "bytes", "[3]byte", "bytes", "[]byte", "bytes", "zero-StackAlias", "zero", "zero-Stack", "zero", "zero-Condition", "zero")
 			if norm.Replace(n.Kids[i].String()) != norm.Replace(n.Kids[i+1].String()) {
 				m5 := cloneNode(n)
 				m5.Kids[i], m5.Kids[i+1] = m5.Kids[i+1], m5.Kids[i]
